@@ -320,6 +320,15 @@ m('binomial', 'Binomial', 'mean', trait='Mean', ret='r', ensures=['C02.binomial.
 m('binomial', 'Binomial', 'var', trait='Variance', ret='r',
   ensures=['C02.binomial.var:: rv(r) == (self.n as real) * rv(self.p) * (1real - rv(self.p))'])
 
+# ------------------------------------------------------------------ Default impls: the documented default parameters, accepted by `new` (never a panic)
+DEFAULTS = [('normal', 'Normal', 'fresh_normal(0.0f64, 1.0f64)'), ('uniform', 'Uniform', 'fresh_uniform(0.0f64, 1.0f64)'), ('exponential', 'Exponential', 'fresh_exponential(1.0f64)'),
+            ('gamma', 'Gamma', 'fresh_gamma(1.0f64, 1.0f64)'), ('beta', 'Beta', 'fresh_beta(1.0f64, 1.0f64)'), ('chi_squared', 'ChiSquared', 'fresh_chi(1usize)'),
+            ('t', 'T', '(T { dof: 1.0f64 })'), ('pareto', 'Pareto', '(Pareto { alpha: 1.0f64, minval: 1.0f64 })'), ('gumbel', 'Gumbel', 'fresh_gumbel(0.0f64, 1.0f64)'),
+            ('bernoulli', 'Bernoulli', '(Bernoulli { p: 0.5f64 })'), ('discreteuniform', 'DiscreteUniform', '(DiscreteUniform { lower: 0i64, upper: 1i64 })'),
+            ('poisson', 'Poisson', '(Poisson { lambda: 1.0f64 })'), ('binomial', 'Binomial', '(Binomial { n: 1u64, p: 0.5f64 })')]
+for _mod, _name, _fresh in DEFAULTS:
+    m(_mod, _name, 'default', trait='Default', ret='r', ensures=['C18.%s.default:: r == %s' % (_mod, _fresh)])
+
 UNITS = [
     Unit('C02_dist', ('C02', 'C18'), FNS, use=STUBS, types=TYPES, consts=CONSTS, spec=SPEC, type_spec=TYPE_SPEC, preludes=PRE, broadcast=BC, level='L1',
          notes='densities, masses, means and variances of 13 univariate laws against textbook formulas over the reals; '
